@@ -64,7 +64,7 @@ MC_MODELS = {
 DEC_MODELS = ["dec_framing", "dec_ctllen", "dec_avprec", "dec_kinds", "dec_loop3", "dec_loop4", "dec_data"]
 ENC_MODELS = ["enc_avps", "enc_msgs", "enc_sizes", "enc_huge"]
 
-DECODE_EVENTS = ("decode", "decode_avps", "decode_payload", "decode_seq", "decode_opts", "decode_suffix", "avps_concat")
+DECODE_EVENTS = ("decode", "decode_avps", "decode_payload", "decode_seq", "decode_opts", "decode_bits", "decode_suffix", "avps_concat")
 DIED = ("outcome-panic", "outcome-abort", "outcome-timeout")
 
 COMMON_ASSUMPTIONS = [
@@ -105,7 +105,7 @@ PROPS = {
         "assumptions": COMMON_ASSUMPTIONS,
     },
     "C05": {
-        "mc": DEC_MODELS + ["dec_flagsq"], "gen": ["decode", "avps", "payload", "flags", "ignored", "decode_big", "many_avps", "small_values"],
+        "mc": DEC_MODELS + ["dec_flagsq"], "gen": ["decode", "avps", "payload", "flags", "ignored", "decode_big", "many_avps", "small_values", "bits"],
         "rule": "every decode outcome (verdict, value field for field, per-record results) compared with the TLA+ "
                 "decoder's result for the same octets: TLC boundary grammars, flag words under all option sets, seeded "
                 "random / mutated / raw inputs, and pairs differing only in octets the specification ignores",
@@ -168,7 +168,7 @@ PROPS = {
         "assumptions": COMMON_ASSUMPTIONS + ["crafting adversarial ciphertexts uses the md5 crate; verdicts come from the TLA+ MD5"],
     },
     "C14": {
-        "mc": ["dec_flagsq", "dec_flagsall", "dec_framing"], "gen": ["flags"],
+        "mc": ["dec_flagsq", "dec_flagsall", "dec_framing"], "gen": ["flags", "bits"],
         "rule": "flag words (quick: all T/L/S/O/P x 5 version nibbles x 9 reserved patterns + random; thorough: all 65 536) "
                 "followed by a matching control / data tail, decoded under all 8 option sets and the default entry in one "
                 "event: monotonicity and exactness on the implementation's own results and against the specification",
@@ -330,7 +330,7 @@ def owns(prop, ev, tag):
             return died and ev.get("died") is None and any(w in msg for w in ("out of range", "unsafe precondition", "range end index", "range start index"))
         return e in DECODE_EVENTS and tag in ("reader-contract", "reader-diff")
     if prop == "C05":
-        return e in ("decode", "decode_avps", "decode_payload", "decode_opts") and "fault" not in ev \
+        return e in ("decode", "decode_avps", "decode_payload", "decode_opts", "decode_bits") and "fault" not in ev \
             and (died or tag in ("verdict", "value"))
     if prop in ("C03", "C04"):
         # the round-trip relation on the implementation's own values
@@ -367,7 +367,8 @@ def owns(prop, ev, tag):
         return e == "reveal" and ev.get("v", {}).get("k") == "Hidden" and (died or tag in ("reveal-kind", "reveal-accepts-bad"))
     if prop == "C14":
         # relations between the results under different option sets, on the implementation's own results
-        return e == "decode_opts" and (died or tag in ("opts-monotone", "default-entry", "version-exact", "reserved-exact", "unused-exact"))
+        return e in ("decode_opts", "decode_bits") and (
+            died or tag in ("opts-monotone", "default-entry", "version-exact", "reserved-exact", "unused-exact", "bits-affect-result"))
     if prop == "C15":
         # the acceptance rule applied to the implementation's own per-record results
         return e == "ctl_records" and (died or tag in ("all-or-nothing", "error-count", "error-order", "empty-errors"))
